@@ -160,6 +160,39 @@ def r3(run):
                 errs = [e for (rb, e, raw) in kb.return_defs() if rb in kb.reachable_blocks([t for (_, t, _) in true_edges])]
                 run.ob("%s|reject-returns-err" % TOPIC_KEY_FN, bool(errs) and all(strip(e)[0] == "agg" and strip(e)[1].get("variant") == "Err" for e in errs), c.sp,
                        "a topic containing the delimiter yields Err", reason="nul-not-rejected")
+    if not okc:
+        # the same search spelled with an iterator: `topic.bytes().position(|b| b == DELIM)`, `.iter().any(|b| *b == DELIM)`, `.find(..)`
+        for c in kb.calls():
+            if c.bb not in kb.live_blocks() or c.fn.split("::")[-1] not in ("position", "any", "find") or "Iterator" not in c.fn or len(c.args) != 2:
+                continue
+            clo = strip(c.arg(1))
+            cb = run.facts.body(clo[1].get("def")) if clo[0] == "agg" and clo[1].get("def") else None
+            rets = cb.return_defs() if cb is not None else []
+            cm = q.comparison(rets[0][1]) if len(rets) == 1 else None
+            if not cm or cm[0] != "eq" or not q.has_field(c.arg(0), "topic"):
+                continue
+            sides = [strip(cm[1]), strip(cm[2])]
+            if not any(x[0] == "const" and (x[1].get("uneval") == dname or x[1].get("int") == dval) for x in sides):
+                continue
+            found = notfound = None
+            for bb, si in kb.switches():
+                cnd = strip(si["cond"])
+                if cnd[0] == "call" and q.same_call(cnd[1], c):
+                    if si["kind"] == "bool":
+                        found, notfound = q.edge_triples(kb, bb, lambda m: m is True), q.edge_triples(kb, bb, lambda m: m is False)
+                    elif si["kind"] == "variant":
+                        found = q.edge_triples(kb, bb, lambda m: m == "Some")
+                        notfound = q.edge_triples(kb, bb, lambda m: m == "None" or (isinstance(m, tuple) and "None" in m))
+            if found is None:
+                continue
+            okc = True
+            pcall = segs[0][2]
+            run.ob("%s|reject-dominates-build" % TOPIC_KEY_FN, bool(notfound) and q.dominated(kb, pcall.bb, via_edges=notfound), c.sp,
+                   "the key is only built on the 'topic has no delimiter' edge", reason="nul-not-rejected")
+            errs = [e for (rb, e, raw) in kb.return_defs() if rb in kb.reachable_blocks([t for (_, t, _) in found])]
+            run.ob("%s|reject-returns-err" % TOPIC_KEY_FN, bool(errs) and all(strip(e)[0] == "agg" and strip(e)[1].get("variant") == "Err" or
+                                                                               (strip(e)[0] == "call" and strip(e)[1].fn.endswith("from_residual")) for e in errs), c.sp,
+                   "a topic containing the delimiter yields Err", reason="nul-not-rejected")
     run.ob("%s|rejects-delimiter" % TOPIC_KEY_FN, okc, kb.sp, "idx_topic_key_from_frame tests the topic bytes for the same delimiter constant", reason="nul-not-rejected")
     # id extraction from a topic key: last 16 bytes
     extractors = set()
@@ -221,7 +254,7 @@ def r3(run):
     ok = False
     d = ""
     for b in facts.bodies_under(C.ITER_FRAMES):
-        for c in q.live_calls(b, "core::ops::index::Index::index"):
+        for c in q.live_calls(b, "core::ops::index::Index::index", "core::slice::<impl [T]>::get"):
             rng = strip(c.arg(1))
             d = fmt(rng)
             if rng[0] == "agg" and rng[2] and q.const_int(rng[2][0]) == 16 and "RangeFrom" in rng[1].get("adt", ""):
@@ -254,6 +287,47 @@ def r4(run):
                    "%s in %s is reached only through the Ok edge of the topic-delimiter check" % (name, fn), reason="nul-topic-leaves-trace")
 
 
+def head_loop_form(run, hb):
+    """`for kv in idx_topic.prefix(..).rev() { match self.get(&id) { Some(f) => { found = Some(f); break } None => .. } }`: the
+    explicit spelling of find_map.  Returns True when the loop was found (its obligations are then recorded)."""
+    nxt = [c for c in q.live_calls(hb, "core::iter::traits::iterator::Iterator::next") if not any("tracing" in str(m) for m in (c.exp or []))]
+    scans = []
+    for n in nxt:
+        chain, x = [], strip(n.arg(0))
+        k = 0
+        while x[0] == "call" and k < 8:
+            chain.append(x[1].fn)
+            x = strip(x[2][0]) if x[2] else ("end",)
+            k += 1
+        chain = [f for f in chain if not f.endswith("IntoIterator::into_iter")]
+        if C.PARTITION_PREFIX in chain:
+            scans.append((n, chain))
+    gets = [g for g in q.live_calls(hb, C.GET) if any(q.reaches(hb, n.bb, g.bb) for (n, ch) in scans)]
+    if len(scans) != 1 or len(gets) != 1:
+        return False
+    (n, chain), g = scans[0], gets[0]
+    run.ob("%s|rev-prefix-scan" % C.HEAD, len(chain) >= 2 and chain[0] == "core::iter::traits::iterator::Iterator::rev" and chain[1] == C.PARTITION_PREFIX, n.sp,
+           "head scans prefix(idx_topic, ..) in REVERSE (newest first): %s" % " <- ".join(x.split("::")[-1] for x in chain), reason="head-not-newest")
+    rl = q.root_local(hb, n.args[0])
+    ty = hb.types.adaptor_chain(hb.local_ty(rl)) if rl is not None else []
+    run.ob("%s|receiver-type" % C.HEAD, bool(ty) and ty[0] == "core::iter::adapters::rev::Rev", n.sp, "the scanned iterator's type is Rev<..>: %s" % ty[:2], reason="head-not-newest")
+    some_e, none_e = [], []
+    for bb, si in hb.switches():
+        cnd = strip(si["cond"])
+        if si["kind"] == "variant" and cnd[0] == "call" and q.same_call(cnd[1], g):
+            some_e += q.edge_triples(hb, bb, lambda m: m == "Some")
+            none_e += q.edge_triples(hb, bb, lambda m: m == "None" or (isinstance(m, tuple) and "None" in m))
+    after_some = hb.reachable_blocks([t for (_, t, _) in some_e]) if some_e else set()
+    after_none = hb.reachable_blocks([t for (_, t, _) in none_e]) if none_e else set()
+    run.ob("%s|first-hit-wins" % C.HEAD, bool(some_e) and n.bb not in after_some, g.sp,
+           "once an index entry resolves to a stored frame the scan stops (no further entry is looked at)", reason="head-not-newest")
+    run.ob("%s|skip-dangling" % C.HEAD, bool(none_e) and n.bb in after_none, g.sp,
+           "an index entry without a stored frame is skipped (the scan goes on), not fatal", reason="dangling-entry")
+    from_get = [e for (rb, e, raw) in hb.return_defs() if rb in after_some and any(y[0] == "call" and q.same_call(y[1], g) for y in walk(e))]
+    run.ob("%s|returns-the-hit" % C.HEAD, bool(from_get), g.sp, "what head returns after a hit is the frame Store::get produced", reason="head-not-newest")
+    return True
+
+
 def r5(run):
     hb = C.body_or_fail(run, C.HEAD)
     fm = q.live_calls(hb, "core::iter::traits::iterator::Iterator::find_map")
@@ -263,6 +337,8 @@ def r5(run):
             inner = strip(n.arg(0))
             if inner[0] == "call" and inner[1].fn == "core::iter::traits::iterator::Iterator::filter_map":
                 fm.append(inner[1])
+    if not fm and head_loop_form(run, hb):
+        return
     run.exact("first-hit scans (find_map / filter_map(..).next()) in Store::head", len(fm), 1, hb.sp)
     if not fm:
         return
